@@ -33,10 +33,11 @@ def plan(tier):
 def gen_cases(ctx):
     for i in range(ctx.share(ctx.scale(3000, 300000))):
         rng = ctx.rng(1, i)
+        pe, ne = gen.exponents(rng)
         yield {"kind": "rate", "seed": int(rng.integers(1 << 31)), "combo": int(rng.integers(6)),
                "regime": int(rng.choice([4, 6])), "n": int(rng.choice([1, 3, 20, 100])),
                "tex": str(rng.choice(gen.TEXTURE_KINDS)), "vol": str(rng.choice(gen.VOLUME_KINDS)),
-               "Lkind": str(rng.choice(gen.L_KINDS)), "p": float(rng.uniform(1, 2)), "nexp": float(rng.uniform(2, 5)),
+               "Lkind": str(rng.choice(gen.L_KINDS)), "p": pe, "nexp": ne,
                "lam": float(rng.uniform(0, 10)), "M": float(rng.uniform(0, 200)), "phi": float(rng.uniform(0.1, 1))}
     for i in range(ctx.share(ctx.scale(60, 2400))):
         rng = ctx.rng(2, i)
